@@ -98,6 +98,9 @@ func runGuarded(c *Ctx, p *propCheck) {
 		}
 	}()
 	p.run(c)
+	if _, ok := newStateOwners[c.prop]; ok {
+		c.newStateRule("R00 no-new-state-read-by-existing-code")
+	}
 }
 
 func writeLoadFailure(prop string, err error) string {
